@@ -19,7 +19,7 @@
    key parks the cursor at the end; next_element on a cursor whose end is not a tape index answers
    None), and [walk_eq] proves that the walk over ops_tape and the walk over ops2 are EQUAL (same
    outcome, for every fuel / shape / token / state) on a tape whose links are in range. *)
-From JV.proofs Require Import SwarLanes BinTapeWfProofs NoCrashWalk NoCrashBinDe NoCrashTapeWalksDefs.
+From JV.proofs Require Import SwarLanes BinTapeWfProofs BinTapeSim BinTapeSafe NoCrashWalk NoCrashBinDe NoCrashTapeWalksDefs NoCrashTapeWalksInv.
 From JV Require Import Bytes Tables Date BinPrim BinTape BinTapeWf SerdeShape BinDeCommon BinDeTape.
 From Coq Require Import List NArith ZArith Bool Lia Arith.
 Import ListNotations.
@@ -399,3 +399,184 @@ Section Ops2.
                  (key_of_eq fuel (walk_eq fuel) true) (value_of_eq fuel (walk_eq fuel))); reflexivity.
   Qed.
 End Ops2.
+
+(* ================================================================== the instance of the generic theorem *)
+Section Inst.
+  Variable cfg : bcfg.
+  Variable tokens : tape.
+  Hypothesis Hcfg : cfg_ok cfg.
+  Hypothesis Hwf : tape_wf tokens.
+  Hypothesis Hpay : Forall tok_ok tokens.
+  Notation L := (length tokens).
+  Notation F := (c_fops cfg).
+  Notation skip := (skipof tokens).
+
+  Definition IT (i : nat) : Prop := i < L.
+  Definition mt (k : bool) (i : nat) : nat := if k then 0 else skip i - i.
+  Definition mu (st : tcur) : nat := S (t_end st) - t_idx st.
+  Definition tot (st : tcur) : nat := mu st + mt false (t_vind st).
+  (* a cursor inside the container whose End token sits at t_end *)
+  Definition inner (st : tcur) : Prop := exists b, nth_error tokens (t_end st) = Some (TEnd b) /\ b < t_idx st.
+  (* the root cursor *)
+  Definition top (st : tcur) : Prop := t_end st = L /\ top_ok tokens (t_idx st).
+  Definition IS (st : tcur) : Prop := t_vind st < L /\ (inner st \/ top st).
+
+  Definition dpost (s : tcur) (k : bool) (t : nat) (r : action tcur rgb * tcur) : Prop :=
+    IS (snd r) /\ mu (snd r) <= mu s + mt k t /\ tot (snd r) <= tot s + mt k t /\
+    act_ok IS mu (mu s + mt k t) (fst r).
+
+  Lemma visit_key_ok i : i < L -> strict prim_ok (tp_visit_key cfg tokens i).
+  Proof.
+    intros Hi. unfold tp_visit_key. destruct (nth_error tokens i) as [c|] eqn:E.
+    2:{ apply nth_error_None in E. lia. }
+    assert (Hc : tok_ok c) by (rewrite Forall_forall in Hpay; apply Hpay; eapply nth_error_In; eauto).
+    destruct c; cbn [tok_ok] in Hc; try exact I; try (cbn; auto; fail).
+    - apply str_prim_ok; assumption.
+    - apply str_prim_ok; assumption.
+    - apply id_prim_ok; assumption.
+  Qed.
+
+  Lemma same_post s k t (a : action tcur rgb) : IS s -> act_ok IS mu (mu s + mt k t) a -> dpost s k t (a, s).
+  Proof. intros Hs Ha. unfold dpost. cbn [fst snd]. split; [exact Hs|]. split; [lia|]. split; [lia|]. exact Ha. Qed.
+
+  Lemma key_prim_post s k t i : IS s -> i < L -> strict (dpost s k t) (tp_key_prim cfg tokens i s).
+  Proof.
+    intros Hs Hi. unfold tp_key_prim. eapply strict_bind; [apply visit_key_ok; exact Hi|].
+    intros p Hp. cbn [strict]. apply same_post; [exact Hs|exact Hp].
+  Qed.
+
+  Lemma sub_IS i c x : nth_error tokens i = Some c -> container_end c = Some x ->
+    IS (mkcur (S i) x 0) /\ mu (mkcur (S i) x 0) <= mt false i.
+  Proof.
+    intros E Hc. destruct Hwf as (Hl & _). destruct (Hl i c x E Hc) as (A & B & C).
+    split; [split|].
+    - cbn. lia.
+    - left. exists i. cbn. split; [exact C|lia].
+    - unfold mu, mt. cbn [t_end t_idx]. rewrite (skipof_cont tokens i c x E Hc). lia.
+  Qed.
+
+  Lemma dispatch_ok k h t s : IS s -> IT t -> strict (dpost s k t) (tp_dispatch cfg tokens k h t s).
+  Proof.
+    intros Hs Ht. unfold IT in Ht. pose proof (key_prim_post s k t t Hs Ht) as K.
+    unfold tp_dispatch, tp_any. destruct (nth_error tokens t) as [c|] eqn:E.
+    2:{ apply nth_error_None in E. lia. }
+    assert (Hsub : forall x, container_end c = Some x -> k = false ->
+              act_ok IS mu (mu s + mt k t) (@ASeq tcur rgb (mkcur (S t) x 0)) /\
+              act_ok IS mu (mu s + mt k t) (@AMap tcur rgb (mkcur (S t) x 0))).
+    { intros x Hx ->. destruct (sub_IS t c x E Hx) as [A B]. cbn [act_ok]. split; (split; [exact A|lia]). }
+    destruct k; destruct h; destruct c; try exact K; try exact I;
+      cbn [strict]; apply same_post; auto; try exact I;
+      try (apply (Hsub _ eq_refl eq_refl)).
+  Qed.
+
+  Lemma next_elem2_ok s : IS s ->
+    strict (fun r => IS (snd r) /\
+              match fst r with
+              | Some t => IT t /\ mu (snd r) + mt false t + 1 <= mu s
+              | None => mu (snd r) <= mu s
+              end) (tp_next_elem2 tokens s).
+  Proof.
+    intros Hs. unfold tp_next_elem2. destruct (Nat.ltb (t_end s) L) eqn:El; [|cbn; auto].
+    apply Nat.ltb_lt in El. unfold tp_next_elem. destruct (Nat.leb (t_end s) (t_idx s)) eqn:Ei; [cbn; auto|].
+    apply Nat.leb_gt in Ei. destruct Hs as [Hv [(b & Hb & Hlt)|[Ht _]]]; [|lia].
+    assert (Hi : t_idx s < L) by lia.
+    rewrite (tp_skip_ok tokens _ Hi). cbn [obind strict fst snd].
+    destruct (skipof_bounds tokens Hwf _ Hi) as [A _].
+    pose proof (skipof_inside tokens Hwf b (t_end s) (t_idx s) Hb Hlt ltac:(lia)) as B.
+    split; [split; [exact Hv|left; exists b; cbn; split; [exact Hb|lia]]|].
+    split; [exact Hi|]. unfold mu, mt. cbn [t_end t_idx]. lia.
+  Qed.
+
+  Lemma doomed_scalar i c : nth_error tokens i = Some c -> doomed tokens i = negb (is_scalar c).
+  Proof. intros E. unfold doomed. rewrite E. destruct c; reflexivity. Qed.
+
+  Lemma next_key2_ok root s : IS s ->
+    strict (fun r => IS (snd r) /\
+              match fst r with
+              | Some t => IT t /\ tot (snd r) + mt true t + 1 <= mu s
+              | None => mu (snd r) <= mu s
+              end) (tp_next_key2 tokens root s).
+  Proof.
+    intros Hs. unfold tp_next_key2. destruct (Nat.ltb (t_idx s) (t_end s)) eqn:Ei; [|cbn; auto].
+    apply Nat.ltb_lt in Ei. destruct Hs as [Hv [(b & Hb & Hlt)|[Ht Htop]]].
+    - pose proof (end_lt_len tokens _ _ Hb) as He.
+      assert (Hvi : S (t_idx s) < L) by lia.
+      rewrite (tp_skip_ok tokens _ Hvi). cbn [obind strict fst snd].
+      destruct (skipof_bounds tokens Hwf _ Hvi) as [A _].
+      pose proof (skipof_inside tokens Hwf b (t_end s) (S (t_idx s)) Hb ltac:(lia) ltac:(lia)) as B.
+      destruct (doomed tokens (t_idx s)).
+      + split; [split; [exact Hvi|left; exists b; cbn; split; [exact Hb|lia]]|].
+        split; [unfold IT; lia|]. unfold tot, mu, mt. cbn [t_end t_idx t_vind]. lia.
+      + split; [split; [exact Hvi|left; exists b; cbn; split; [exact Hb|lia]]|].
+        split; [unfold IT; lia|]. unfold tot, mu, mt. cbn [t_end t_idx t_vind]. lia.
+    - rewrite Ht in Ei. inversion Htop as [idx Hge|idx c Hn Hsc Hvi|idx k Hn Hsc Hvi Hrest]; subst idx; [lia| |].
+      + rewrite (tp_skip_ok tokens _ Hvi). cbn [obind strict fst snd].
+        destruct (skipof_bounds tokens Hwf _ Hvi) as [A B].
+        rewrite (doomed_scalar _ _ Hn), Hsc. cbn [negb].
+        split; [split; [exact Hvi|right; split; [cbn; exact Ht|apply TO_end; cbn; lia]]|].
+        split; [exact Ei|]. unfold tot, mu, mt. cbn [t_end t_idx t_vind]. lia.
+      + rewrite (tp_skip_ok tokens _ Hvi). cbn [obind strict fst snd].
+        destruct (skipof_bounds tokens Hwf _ Hvi) as [A B].
+        rewrite (doomed_scalar _ _ Hn), Hsc. cbn [negb].
+        split; [split; [exact Hvi|right; split; [exact Ht|exact Hrest]]|].
+        split; [exact Ei|]. unfold tot, mu, mt. cbn [t_end t_idx t_vind]. lia.
+  Qed.
+
+  Theorem deser_tokens_ok b fuel sh : tokens <> [] -> top_ok tokens 0 -> okshape b sh ->
+    gd2 b (S L + shape_size sh + 1 <= fuel) (fun _ => True) (deser_tokens cfg tokens fuel sh).
+  Proof.
+    intros Hne Htop Hsh. unfold deser_tokens. pose proof Hwf as (Hlinks & _). rewrite (walk_root_eq cfg tokens Hlinks).
+    eapply gd2_mono; [apply (walk_root_ok F (ops2 cfg tokens) b IS IT mu tot mt)| |intros; exact I].
+    - intros s. unfold tot. lia.
+    - intros k h t s. apply dispatch_ok.
+    - intros s. apply next_elem2_ok.
+    - intros h s1 sub d H1 H2. cbn. auto.
+    - intros s1 sub H1 H2. cbn. auto.
+    - intros root s. apply next_key2_ok.
+    - intros s Hs. cbn. unfold tot. destruct Hs as [Hv Hs]. split; [exact Hv|]. split; [split; [exact Hv|exact Hs]|lia].
+    - intros n sh0 c. apply color_visit_strict.
+    - split; [cbn; destruct tokens; [congruence|cbn; lia]|]. right. split; [reflexivity|exact Htop].
+    - exact Hsh.
+    - unfold mu. cbn [t_end t_idx]. lia.
+  Qed.
+End Inst.
+
+(* the empty tape (empty input): the root map is exhausted at once *)
+Lemma deser_tokens_nil cfg b fuel sh : okshape b sh ->
+  gd2 b (1 <= fuel) (fun _ => True) (deser_tokens cfg [] fuel sh).
+Proof.
+  intros Hsh. unfold deser_tokens.
+  destruct fuel as [|fuel]; [destruct sh; cbn; try lia; auto; revert Hsh; unfold okshape; cbn; destruct b; auto; intros H; specialize (H eq_refl); discriminate|].
+  destruct sh; try exact I.
+  - assert (K : forall rec ks, key_of (ops_tape cfg []) rec true ks (mkcur 0 (length (@nil tok)) 0) = Ok (None, mkcur 0 0 0)) by reflexivity.
+    cbn [walk_root visit_map struct_loop]. rewrite K. cbn [obind].
+    eapply gd2_bind with (P := fun _ => True); [|intros [v s0] _; exact I].
+    eapply gd2_bind; [apply strict_gd2, slots_finish_strict; unfold slots_init; apply map_length|]. intros; exact I.
+  - revert Hsh. unfold okshape. cbn. destruct b; auto. intros H; specialize (H eq_refl); discriminate.
+Qed.
+
+(* ================================================================== the entry point *)
+(* every tape with the three facts: the walk with fuel >= len + shape + 2 *)
+Theorem deser_tokens_total cfg tokens b fuel sh :
+  cfg_ok cfg -> tape_wf tokens -> Forall NoCrashTapeWalksDefs.tok_ok tokens -> kvgood 0 tokens -> okshape b sh ->
+  gd2 b (S (length tokens) + shape_size sh + 1 <= fuel) (fun _ => True) (deser_tokens cfg tokens fuel sh).
+Proof.
+  intros Hc Hwf Hpay Hkv Hsh. destruct tokens as [|x r] eqn:E.
+  - eapply gd2_mono; [apply deser_tokens_nil; exact Hsh|cbn; lia|intros; exact I].
+  - rewrite <- E in *. apply deser_tokens_ok; auto.
+    + rewrite E. discriminate.
+    + apply (kvgood_top_ok 0 tokens Hkv []). reflexivity.
+Qed.
+
+(* BinDeTape.deser_tape: parse_opt, then the walk with the entry point's own fuel deser_fuel *)
+Theorem deser_tape_ok cfg (Hcfg : cfg_ok cfg) b sh d : wfl d -> okshape b sh ->
+  gd2 b True (fun _ => True) (deser_tape cfg sh d).
+Proof.
+  intros Hd Hsh. unfold deser_tape.
+  pose proof (parse_no_crash fast_path_excludes_i64 true d) as NC. unfold parse_opt.
+  destruct (parse fast_path_excludes_i64 true d) as [t|e|s|s|] eqn:E; try discriminate NC; [|exact I].
+  destruct (parse_tape_facts _ _ _ Hd E) as (Hpay & Hlen & Hkv).
+  pose proof (parse_wf _ _ _ _ E) as Hwf.
+  eapply gd2_mono; [apply (deser_tokens_total cfg t b (deser_fuel sh d) sh Hcfg Hwf Hpay Hkv Hsh)| |intros; exact I].
+  intros _. unfold deser_fuel. lia.
+Qed.
